@@ -1,13 +1,18 @@
 package main
 
-// handlers.go: field-source sketches of the sshd log handlers (-> Gen/SshdHandlers.v).
+// handlers.go: what the sshd log handlers do, extracted from their Go source (-> Gen/SshdHandlers.v).
 //
 // Every handler reachable from ProcessEntry / userTypeLogAuditFn is run through a small symbolic
 // evaluator (environment: Go identifier -> symbolic value).  The evaluator understands exactly the
-// statement and expression forms the regular handlers are written in; package helpers such as
-// userLogToAuditEvent are inlined with parameter binding.  Anything else makes the handler's
-// sketch UNSUPPORTED (an identifier that does not type-check in Coq), except for the handlers
-// named in hsNoSketchAllowed, which get None.
+// statement and expression forms the handlers are written in; package helpers (userLogToAuditEvent,
+// addEventInfoForUnknownUser, extraDataWithCA, getCertificateInvalidReason, ...) are inlined with
+// parameter binding.  Conditions that depend on the input (no regex match, Atoi failure, "the match
+// is the whole line", "the second regex does not match the rest") fork the evaluation, so that the
+// result is a decision tree (hprog) whose leaves are the event that is written, the metric
+// increments before the write and the login that is handed on.  Trees of the plain shape
+// (match; build; write) are additionally emitted as flat sketches (hsketch).
+// Anything not understood makes the handler's entry UNSUPPORTED (an identifier that does not
+// type-check in Coq).
 
 import (
 	"fmt"
@@ -23,24 +28,47 @@ import (
 
 func init() { generators = append(generators, genHandlers) }
 
-// handlers that are allowed to have no sketch (their shape is modelled by hand only)
+// handlers that are allowed to have no flat sketch (they still must have a decision tree)
 var hsNoSketchAllowed = map[string]bool{
-	"processAcceptPublicKeyEntry":    true, // three branches, second regex, data payload
+	"processAcceptPublicKeyEntry":    true, // three outcomes, second regex, data payload
 	"processCertificateInvalidEntry": true, // uses no regular expression
 }
 
 // ---------------------------------------------------------------------------------------------
 // symbolic values
 
+// hsInt: line*len(config.logEntry) + match0*len(matches[0]) + k
+type hsInt struct {
+	line, match0, k int
+	coq             string // rendering of k when the value is a pure constant
+}
+
+func (i hsInt) pure() bool { return i.line == 0 && i.match0 == 0 }
+
 type hsSrc struct {
-	kind      string // cap | const | pid | node | mid
+	kind      string // cap | const | pid | node | mid | match0 | lineslice | linefrom
 	re, group string
+	second    bool // cap: group of the handler's second regex
 	s         string
+	n         hsInt // lineslice: lower bound; linefrom: length skipped
+}
+
+func (f hsSrc) plain() bool {
+	switch f.kind {
+	case "cap":
+		return !f.second
+	case "const", "pid", "node", "mid":
+		return true
+	}
+	return false
 }
 
 func (f hsSrc) coq() string {
 	switch f.kind {
 	case "cap":
+		if f.second {
+			return "FCap2 " + f.re + "_" + f.group
+		}
 		return "FCap " + f.re + "_" + f.group
 	case "const":
 		q, ok := coqStringLit([]byte(f.s))
@@ -54,8 +82,14 @@ func (f hsSrc) coq() string {
 		return "FCfgNode"
 	case "mid":
 		return "FCfgMachineID"
+	case "linefrom":
+		q, ok := coqStringLit([]byte(f.s))
+		if !ok || !f.n.pure() || f.n.coq == "" {
+			return "UNSUPPORTED_line_from"
+		}
+		return "FLineFrom " + f.n.coq + " " + q
 	}
-	return "UNSUPPORTED_fsrc"
+	return "UNSUPPORTED_fsrc_" + f.kind
 }
 
 type hsKV struct {
@@ -71,24 +105,45 @@ type hsEvent struct {
 	target                     []hsKV
 	targetSet                  bool
 	metaExtra                  []hsKV
+	data                       []hsKV // keys sorted as json.Marshal of a map sorts them
+	dataSet                    bool
+}
+
+func (e *hsEvent) clone() *hsEvent {
+	n := *e
+	n.srcExtra = append([]hsKV{}, e.srcExtra...)
+	n.subjects = append([]hsKV{}, e.subjects...)
+	n.target = append([]hsKV{}, e.target...)
+	n.metaExtra = append([]hsKV{}, e.metaExtra...)
+	n.data = append([]hsKV{}, e.data...)
+	return &n
 }
 
 type hsValue interface{}
 
 type (
-	hsVStr      struct{ src hsSrc }        // a string whose origin is known
-	hsVMatches  struct{ re string }        // RE.FindStringSubmatch(config.logEntry)
+	hsVStr     struct{ src hsSrc } // a string whose origin is known
+	hsVMatches struct {            // RE.FindStringSubmatch(...)
+		re     string
+		second bool
+	}
 	hsVIdx      struct{ re, group string } // RE.SubexpIndex(<name of an existing group>)
 	hsVCfg      struct{}                   // the *SshdProcessorer parameter
 	hsVLogEntry struct{}                   // config.logEntry
 	hsVWhen     struct{}                   // config.when
 	hsVNil      struct{}
+	hsVInt      struct{ i hsInt }
 	hsVPidInt   struct{}              // the int of strconv.Atoi(config.pid)
-	hsVErr      struct{ of string }   // error value of "atoi"
+	hsVErr      struct{ of string }   // error value of "atoi" | "marshal"
 	hsVOutcome  struct{ ok bool }     // auditevent.OutcomeSucceeded / OutcomeFailed
 	hsVMetric   struct{ name string } // metrics.<name>
-	hsVMap      struct{ kvs []hsKV }  // map literal with constant keys
-	hsVSource   struct {              // auditevent.EventSource literal
+	hsVLogger   struct{}              // a *zap.SugaredLogger local (only ever logged to)
+	hsVMap      struct {              // map literal with constant keys
+		ty  string
+		kvs []hsKV
+	}
+	hsVJSON   struct{ kvs []hsKV } // json.Marshal of a map[string]string: object with sorted keys
+	hsVSource struct {             // auditevent.EventSource literal
 		typ   string
 		value hsSrc
 		extra []hsKV
@@ -120,10 +175,13 @@ type hsCtx struct {
 	extNames      map[string]map[string]bool   // import path -> all constant names declared there
 }
 
-// per-handler effects, in the order the model cares about
+// what has happened on the path being evaluated
 type hsState struct {
-	re         string // regex handed to FindStringSubmatch
+	re         string // regex handed to FindStringSubmatch(config.logEntry)
 	matchGuard bool   // "if matches == nil { ...; return nil }" seen
+	re2        string // second regex, applied to config.logEntry[len(matches[0])+skip:]
+	skip       int
+	match2     string // "" not decided yet | "nil" | "some"
 	atoi       bool   // pid, err := strconv.Atoi(config.pid) seen
 	atoiGuard  bool   // "if err != nil { ...; return nil }" seen
 	metrics    [][2]string
@@ -133,10 +191,43 @@ type hsState struct {
 }
 
 type hsFrame struct {
-	env    map[string]hsValue
-	file   *ast.File
-	helper bool // evaluating an inlined helper: no guards, no effects, ends with "return <event>"
-	depth  int
+	env      map[string]hsValue
+	file     *ast.File
+	helper   bool   // evaluating an inlined helper: no early returns, no effects
+	sig      string // helper: result signature
+	ret      []hsValue
+	returned bool
+	depth    int
+}
+
+// clone copies the evaluation state for the other branch of a fork (events are copied, and the
+// copies are substituted consistently)
+func hsCloneWorld(fr *hsFrame, st *hsState) (*hsFrame, *hsState) {
+	m := map[*hsEvent]*hsEvent{}
+	cp := func(e *hsEvent) *hsEvent {
+		if e == nil {
+			return nil
+		}
+		if n, ok := m[e]; ok {
+			return n
+		}
+		n := e.clone()
+		m[e] = n
+		return n
+	}
+	nf := *fr
+	nf.env = map[string]hsValue{}
+	for k, v := range fr.env {
+		if ev, ok := v.(hsVEvt); ok {
+			nf.env[k] = hsVEvt{cp(ev.e)}
+		} else {
+			nf.env[k] = v
+		}
+	}
+	ns := *st
+	ns.metrics = append([][2]string{}, st.metrics...)
+	ns.written = cp(st.written)
+	return &nf, &ns
 }
 
 func (c *hsCtx) text(fr *hsFrame, n ast.Node) string {
@@ -155,6 +246,9 @@ func (c *hsCtx) unsup(fr *hsFrame, n ast.Node, why string) error {
 
 // importPath resolves a package qualifier of the current file.
 func (c *hsCtx) importPath(fr *hsFrame, name string) (string, bool) {
+	if _, local := fr.env[name]; local {
+		return "", false
+	}
 	for _, im := range fr.file.Imports {
 		p, err := strconv.Unquote(im.Path.Value)
 		if err != nil {
@@ -169,6 +263,20 @@ func (c *hsCtx) importPath(fr *hsFrame, name string) (string, bool) {
 		}
 	}
 	return "", false
+}
+
+// qualified: e is <pkg>.<name> with pkg imported from path
+func (c *hsCtx) qualified(fr *hsFrame, e ast.Expr, path, name string) bool {
+	sel, ok := e.(*ast.SelectorExpr)
+	if !ok || sel.Sel.Name != name {
+		return false
+	}
+	q, ok := sel.X.(*ast.Ident)
+	if !ok {
+		return false
+	}
+	p, ok := c.importPath(fr, q.Name)
+	return ok && p == path
 }
 
 // loadExt reads the constants of a package of this module.
@@ -216,9 +324,6 @@ func hsCollectConsts(f *ast.File, strs map[string]string, names map[string]bool)
 	}
 }
 
-// ---------------------------------------------------------------------------------------------
-// expressions
-
 func hsIsIdent(e ast.Expr, name string) bool {
 	id, ok := e.(*ast.Ident)
 	return ok && id.Name == name
@@ -253,6 +358,23 @@ func hsTypeString(e ast.Expr) string {
 	return "?"
 }
 
+func hsResultSig(fd *ast.FuncDecl) string {
+	if fd.Type.Results == nil {
+		return ""
+	}
+	var ts []string
+	for _, f := range fd.Type.Results.List {
+		if len(f.Names) != 0 {
+			return "?named"
+		}
+		ts = append(ts, hsTypeString(f.Type))
+	}
+	return strings.Join(ts, ",")
+}
+
+// ---------------------------------------------------------------------------------------------
+// expressions
+
 func (c *hsCtx) evalStr(fr *hsFrame, st *hsState, e ast.Expr) (hsSrc, error) {
 	v, err := c.eval(fr, st, e)
 	if err != nil {
@@ -263,6 +385,31 @@ func (c *hsCtx) evalStr(fr *hsFrame, st *hsState, e ast.Expr) (hsSrc, error) {
 		return hsSrc{}, c.unsup(fr, e, "expected a string of known origin")
 	}
 	return s.src, nil
+}
+
+// evalField: a string that is put into the event (not every string value can be)
+func (c *hsCtx) evalField(fr *hsFrame, st *hsState, e ast.Expr) (hsSrc, error) {
+	s, err := c.evalStr(fr, st, e)
+	if err != nil {
+		return s, err
+	}
+	switch s.kind {
+	case "match0", "lineslice":
+		return s, c.unsup(fr, e, "string kind that the event description cannot carry")
+	}
+	return s, nil
+}
+
+func (c *hsCtx) evalInt(fr *hsFrame, st *hsState, e ast.Expr) (hsInt, error) {
+	v, err := c.eval(fr, st, e)
+	if err != nil {
+		return hsInt{}, err
+	}
+	i, ok := v.(hsVInt)
+	if !ok {
+		return hsInt{}, c.unsup(fr, e, "expected an integer built from len() and literals")
+	}
+	return i.i, nil
 }
 
 func (c *hsCtx) evalMap(fr *hsFrame, st *hsState, cl *ast.CompositeLit) ([]hsKV, error) {
@@ -284,7 +431,7 @@ func (c *hsCtx) evalMap(fr *hsFrame, st *hsState, cl *ast.CompositeLit) ([]hsKV,
 			return nil, c.unsup(fr, kv.Key, "duplicate map key")
 		}
 		seen[k.s] = true
-		v, err := c.evalStr(fr, st, kv.Value)
+		v, err := c.evalField(fr, st, kv.Value)
 		if err != nil {
 			return nil, err
 		}
@@ -298,12 +445,19 @@ func (c *hsCtx) eval(fr *hsFrame, st *hsState, e ast.Expr) (hsValue, error) {
 	case *ast.ParenExpr:
 		return c.eval(fr, st, v.X)
 	case *ast.BasicLit:
-		if v.Kind == token.STRING {
+		switch v.Kind {
+		case token.STRING:
 			s, err := strconv.Unquote(v.Value)
 			if err != nil {
 				return nil, c.unsup(fr, e, "bad string literal")
 			}
 			return hsVStr{hsSrc{kind: "const", s: s}}, nil
+		case token.INT:
+			n, err := strconv.Atoi(v.Value)
+			if err != nil || n < 0 {
+				return nil, c.unsup(fr, e, "integer literal")
+			}
+			return hsVInt{hsInt{k: n, coq: strconv.Itoa(n)}}, nil
 		}
 		return nil, c.unsup(fr, e, "literal of unsupported kind")
 	case *ast.Ident:
@@ -317,6 +471,33 @@ func (c *hsCtx) eval(fr *hsFrame, st *hsState, e ast.Expr) (hsValue, error) {
 			return hsVStr{hsSrc{kind: "const", s: s}}, nil
 		}
 		return nil, c.unsup(fr, e, "identifier with no known value")
+	case *ast.UnaryExpr:
+		// &rawmsg: the pointer to the marshalled object stands for the object
+		if v.Op == token.AND {
+			if id, ok := v.X.(*ast.Ident); ok {
+				if j, ok := fr.env[id.Name].(hsVJSON); ok {
+					return j, nil
+				}
+			}
+		}
+		return nil, c.unsup(fr, e, "unary expression not understood")
+	case *ast.BinaryExpr:
+		if v.Op == token.ADD {
+			a, err := c.evalInt(fr, st, v.X)
+			if err != nil {
+				return nil, err
+			}
+			b, err := c.evalInt(fr, st, v.Y)
+			if err != nil {
+				return nil, err
+			}
+			r := hsInt{line: a.line + b.line, match0: a.match0 + b.match0, k: a.k + b.k}
+			if a.coq != "" && b.coq != "" {
+				r.coq = "(" + a.coq + " + " + b.coq + ")"
+			}
+			return hsVInt{r}, nil
+		}
+		return nil, c.unsup(fr, e, "binary expression not understood")
 	case *ast.SelectorExpr:
 		x, isId := v.X.(*ast.Ident)
 		if !isId {
@@ -367,6 +548,26 @@ func (c *hsCtx) eval(fr *hsFrame, st *hsState, e ast.Expr) (hsValue, error) {
 			return nil, c.unsup(fr, e, "not a string constant of "+path)
 		}
 		return nil, c.unsup(fr, e, "qualified name that is not understood")
+	case *ast.SliceExpr:
+		// config.logEntry[lo:]   (panics when lo > len(config.logEntry))
+		if v.High != nil || v.Max != nil || v.Low == nil {
+			return nil, c.unsup(fr, e, "slice expression other than s[lo:]")
+		}
+		x, err := c.eval(fr, st, v.X)
+		if err != nil {
+			return nil, err
+		}
+		if _, ok := x.(hsVLogEntry); !ok {
+			return nil, c.unsup(fr, e, "slice of something other than the log entry")
+		}
+		lo, err := c.evalInt(fr, st, v.Low)
+		if err != nil {
+			return nil, err
+		}
+		if len(st.metrics) != 0 || st.written != nil {
+			return nil, c.unsup(fr, e, "slice (may panic) after an effect")
+		}
+		return hsVStr{hsSrc{kind: "lineslice", n: lo}}, nil
 	case *ast.IndexExpr:
 		x, err := c.eval(fr, st, v.X)
 		if err != nil {
@@ -374,10 +575,13 @@ func (c *hsCtx) eval(fr *hsFrame, st *hsState, e ast.Expr) (hsValue, error) {
 		}
 		m, ok := x.(hsVMatches)
 		if !ok {
-			return nil, c.unsup(fr, e, "index into something that is not the sub-match slice")
+			return nil, c.unsup(fr, e, "index into something that is not a sub-match slice")
 		}
-		if !st.matchGuard {
-			return nil, c.unsup(fr, e, "sub-match used before the nil check")
+		if (!m.second && !st.matchGuard) || (m.second && st.match2 != "some") {
+			return nil, c.unsup(fr, e, "sub-match used where the match is not known to have succeeded")
+		}
+		if lit, ok := v.Index.(*ast.BasicLit); ok && lit.Kind == token.INT && lit.Value == "0" && !m.second {
+			return hsVStr{hsSrc{kind: "match0"}}, nil
 		}
 		i, err := c.eval(fr, st, v.Index)
 		if err != nil {
@@ -390,29 +594,22 @@ func (c *hsCtx) eval(fr *hsFrame, st *hsState, e ast.Expr) (hsValue, error) {
 		if idx.re != m.re {
 			return nil, c.unsup(fr, e, "index of "+idx.re+" used on the sub-matches of "+m.re)
 		}
-		return hsVStr{hsSrc{kind: "cap", re: idx.re, group: idx.group}}, nil
+		return hsVStr{hsSrc{kind: "cap", re: idx.re, group: idx.group, second: m.second}}, nil
 	case *ast.CompositeLit:
 		ty := hsTypeString(v.Type)
 		switch ty {
-		case "map[string]string", "map[string]any", "map[string]interface{}":
+		case "map[string]string", "map[string]any":
 			kvs, err := c.evalMap(fr, st, v)
 			if err != nil {
 				return nil, err
 			}
-			return hsVMap{kvs}, nil
+			return hsVMap{ty, kvs}, nil
 		}
-		if sel, ok := v.Type.(*ast.SelectorExpr); ok {
-			q, _ := sel.X.(*ast.Ident)
-			path := ""
-			if q != nil {
-				path, _ = c.importPath(fr, q.Name)
-			}
-			switch {
-			case path == "github.com/metal-toolbox/auditevent" && sel.Sel.Name == "EventSource":
-				return c.evalSource(fr, st, v)
-			case path == c.modPath+"/internal/common" && sel.Sel.Name == "RemoteUserLogin":
-				return c.evalLogin(fr, st, v)
-			}
+		switch {
+		case c.qualified(fr, v.Type, "github.com/metal-toolbox/auditevent", "EventSource"):
+			return c.evalSource(fr, st, v)
+		case c.qualified(fr, v.Type, c.modPath+"/internal/common", "RemoteUserLogin"):
+			return c.evalLogin(fr, st, v)
 		}
 		return nil, c.unsup(fr, e, "composite literal of unsupported type "+ty)
 	case *ast.CallExpr:
@@ -445,7 +642,7 @@ func (c *hsCtx) evalSource(fr *hsFrame, st *hsState, cl *ast.CompositeLit) (hsVa
 			}
 			src.typ = s.s
 		case "Value":
-			s, err := c.evalStr(fr, st, kv.Value)
+			s, err := c.evalField(fr, st, kv.Value)
 			if err != nil {
 				return nil, err
 			}
@@ -503,7 +700,7 @@ func (c *hsCtx) evalLogin(fr *hsFrame, st *hsState, cl *ast.CompositeLit) (hsVal
 			}
 		case "CredUserID":
 			s, ok := val.(hsVStr)
-			if !ok {
+			if !ok || s.src.kind == "match0" || s.src.kind == "lineslice" {
 				return nil, c.unsup(fr, kv.Value, "CredUserID of unknown origin")
 			}
 			lg.cred = s.src
@@ -521,20 +718,61 @@ func (c *hsCtx) evalCall(fr *hsFrame, st *hsState, call *ast.CallExpr) (hsValue,
 	if call.Ellipsis != token.NoPos {
 		return nil, c.unsup(fr, call, "variadic call")
 	}
-	// package-level helper: inline it
 	if id, ok := call.Fun.(*ast.Ident); ok {
 		if _, shadow := fr.env[id.Name]; shadow {
 			return nil, c.unsup(fr, call, "call of a local value")
 		}
 		fd := c.funcs[id.Name]
+		// builtin len
+		if fd == nil && id.Name == "len" && len(call.Args) == 1 {
+			a, err := c.eval(fr, st, call.Args[0])
+			if err != nil {
+				return nil, err
+			}
+			switch x := a.(type) {
+			case hsVLogEntry:
+				return hsVInt{hsInt{line: 1}}, nil
+			case hsVStr:
+				switch x.src.kind {
+				case "match0":
+					return hsVInt{hsInt{match0: 1}}, nil
+				case "const":
+					q, ok := coqStringLit([]byte(x.src.s))
+					if !ok {
+						return nil, c.unsup(fr, call, "len of a non-printable constant")
+					}
+					return hsVInt{hsInt{k: len(x.src.s), coq: "(String.length " + q + ")"}}, nil
+				}
+			}
+			return nil, c.unsup(fr, call, "len of something that is not understood")
+		}
 		if fd == nil {
 			return nil, c.unsup(fr, call, "call of an unknown function")
 		}
-		return c.inline(fr, st, call, fd)
+		// package-level helper: inline it
+		vals, err := c.inline(fr, st, call, fd)
+		if err != nil {
+			return nil, err
+		}
+		if len(vals) != 1 {
+			return nil, c.unsup(fr, call, "helper used as a single value does not return one")
+		}
+		return vals[0], nil
 	}
 	sel, ok := call.Fun.(*ast.SelectorExpr)
 	if !ok {
 		return nil, c.unsup(fr, call, "call form not understood")
+	}
+	// json.RawMessage(raw): conversion
+	if c.qualified(fr, call.Fun, "encoding/json", "RawMessage") && len(call.Args) == 1 {
+		a, err := c.eval(fr, st, call.Args[0])
+		if err != nil {
+			return nil, err
+		}
+		if j, ok := a.(hsVJSON); ok {
+			return j, nil
+		}
+		return nil, c.unsup(fr, call, "json.RawMessage of something that is not a marshalled map")
 	}
 	// RE.FindStringSubmatch / RE.SubexpIndex on a package-level regex
 	if x, ok := sel.X.(*ast.Ident); ok {
@@ -555,14 +793,25 @@ func (c *hsCtx) evalCall(fr *hsFrame, st *hsState, call *ast.CallExpr) (hsValue,
 					if err != nil {
 						return nil, err
 					}
-					if _, ok := a.(hsVLogEntry); !ok {
-						return nil, c.unsup(fr, call, "FindStringSubmatch on something other than config.logEntry")
+					if _, ok := a.(hsVLogEntry); ok {
+						if st.re != "" {
+							return nil, c.unsup(fr, call, "second FindStringSubmatch on the log entry")
+						}
+						st.re = x.Name
+						return hsVMatches{x.Name, false}, nil
 					}
-					if st.re != "" {
-						return nil, c.unsup(fr, call, "second FindStringSubmatch in one handler")
+					if s, ok := a.(hsVStr); ok && s.src.kind == "lineslice" {
+						lo := s.src.n
+						if lo.line != 0 || lo.match0 != 1 || lo.k < 0 {
+							return nil, c.unsup(fr, call, "second regex applied to a slice that does not start at len(matches[0]) + constant")
+						}
+						if !st.matchGuard || st.re2 != "" {
+							return nil, c.unsup(fr, call, "second regex: first match not checked, or a third match")
+						}
+						st.re2, st.skip = x.Name, lo.k
+						return hsVMatches{x.Name, true}, nil
 					}
-					st.re = x.Name
-					return hsVMatches{x.Name}, nil
+					return nil, c.unsup(fr, call, "FindStringSubmatch on something other than config.logEntry or its tail")
 				case "SubexpIndex":
 					if len(call.Args) != 1 {
 						return nil, c.unsup(fr, call, "SubexpIndex arity")
@@ -589,101 +838,112 @@ func (c *hsCtx) evalCall(fr *hsFrame, st *hsState, call *ast.CallExpr) (hsValue,
 			}
 		}
 	}
-	// <event>.WithTarget(map)
-	if sel.Sel.Name == "WithTarget" {
+	// <event>.WithTarget(map) / <event>.WithData(json)
+	if sel.Sel.Name == "WithTarget" || sel.Sel.Name == "WithData" {
 		x, err := c.eval(fr, st, sel.X)
 		if err != nil {
 			return nil, err
 		}
 		ev, ok := x.(hsVEvt)
 		if !ok {
-			return nil, c.unsup(fr, call, "WithTarget on something that is not the event")
+			return nil, c.unsup(fr, call, sel.Sel.Name+" on something that is not the event")
 		}
 		if len(call.Args) != 1 {
-			return nil, c.unsup(fr, call, "WithTarget arity")
+			return nil, c.unsup(fr, call, sel.Sel.Name+" arity")
 		}
 		m, err := c.eval(fr, st, call.Args[0])
 		if err != nil {
 			return nil, err
 		}
-		mm, ok := m.(hsVMap)
-		if !ok {
-			return nil, c.unsup(fr, call, "target is not a map literal")
-		}
-		if ev.e.targetSet {
-			return nil, c.unsup(fr, call, "target set twice")
-		}
 		if st.written == ev.e {
 			return nil, c.unsup(fr, call, "event changed after it was written")
 		}
-		ev.e.target, ev.e.targetSet = mm.kvs, true
-		return ev, nil // WithTarget returns its receiver
+		if sel.Sel.Name == "WithTarget" {
+			mm, ok := m.(hsVMap)
+			if !ok || mm.ty != "map[string]string" {
+				return nil, c.unsup(fr, call, "target is not a map[string]string literal")
+			}
+			if ev.e.targetSet {
+				return nil, c.unsup(fr, call, "target set twice")
+			}
+			ev.e.target, ev.e.targetSet = mm.kvs, true
+		} else {
+			j, ok := m.(hsVJSON)
+			if !ok {
+				return nil, c.unsup(fr, call, "data is not a marshalled map[string]string")
+			}
+			if ev.e.dataSet {
+				return nil, c.unsup(fr, call, "data set twice")
+			}
+			ev.e.data, ev.e.dataSet = j.kvs, true
+		}
+		return ev, nil // both return their receiver
 	}
 	// auditevent.NewAuditEvent(action, source, outcome, subjects, component)
-	if q, ok := sel.X.(*ast.Ident); ok {
-		if _, local := fr.env[q.Name]; !local {
-			if path, ok := c.importPath(fr, q.Name); ok && path == "github.com/metal-toolbox/auditevent" && sel.Sel.Name == "NewAuditEvent" {
-				if len(call.Args) != 5 {
-					return nil, c.unsup(fr, call, "NewAuditEvent arity")
-				}
-				ev := &hsEvent{}
-				a, err := c.evalStr(fr, st, call.Args[0])
-				if err != nil {
-					return nil, err
-				}
-				if a.kind != "const" {
-					return nil, c.unsup(fr, call.Args[0], "event type is not a constant")
-				}
-				ev.action = a.s
-				s, err := c.eval(fr, st, call.Args[1])
-				if err != nil {
-					return nil, err
-				}
-				src, ok := s.(hsVSource)
-				if !ok {
-					return nil, c.unsup(fr, call.Args[1], "source is not an EventSource literal")
-				}
-				ev.srcType, ev.srcValue, ev.srcExtra = src.typ, src.value, src.extra
-				o, err := c.eval(fr, st, call.Args[2])
-				if err != nil {
-					return nil, err
-				}
-				oc, ok := o.(hsVOutcome)
-				if !ok {
-					return nil, c.unsup(fr, call.Args[2], "outcome is not OutcomeSucceeded/OutcomeFailed")
-				}
-				ev.ok = oc.ok
-				m, err := c.eval(fr, st, call.Args[3])
-				if err != nil {
-					return nil, err
-				}
-				mm, ok := m.(hsVMap)
-				if !ok {
-					return nil, c.unsup(fr, call.Args[3], "subjects is not a map literal")
-				}
-				ev.subjects = mm.kvs
-				comp, err := c.evalStr(fr, st, call.Args[4])
-				if err != nil {
-					return nil, err
-				}
-				if comp.kind != "const" {
-					return nil, c.unsup(fr, call.Args[4], "component is not a constant")
-				}
-				ev.component = comp.s
-				return hsVEvt{ev}, nil
-			}
+	if c.qualified(fr, call.Fun, "github.com/metal-toolbox/auditevent", "NewAuditEvent") {
+		if len(call.Args) != 5 {
+			return nil, c.unsup(fr, call, "NewAuditEvent arity")
 		}
+		ev := &hsEvent{}
+		a, err := c.evalStr(fr, st, call.Args[0])
+		if err != nil {
+			return nil, err
+		}
+		if a.kind != "const" {
+			return nil, c.unsup(fr, call.Args[0], "event type is not a constant")
+		}
+		ev.action = a.s
+		s, err := c.eval(fr, st, call.Args[1])
+		if err != nil {
+			return nil, err
+		}
+		src, ok := s.(hsVSource)
+		if !ok {
+			return nil, c.unsup(fr, call.Args[1], "source is not an EventSource literal")
+		}
+		ev.srcType, ev.srcValue, ev.srcExtra = src.typ, src.value, src.extra
+		o, err := c.eval(fr, st, call.Args[2])
+		if err != nil {
+			return nil, err
+		}
+		oc, ok := o.(hsVOutcome)
+		if !ok {
+			return nil, c.unsup(fr, call.Args[2], "outcome is not OutcomeSucceeded/OutcomeFailed")
+		}
+		ev.ok = oc.ok
+		m, err := c.eval(fr, st, call.Args[3])
+		if err != nil {
+			return nil, err
+		}
+		mm, ok := m.(hsVMap)
+		if !ok || mm.ty != "map[string]string" {
+			return nil, c.unsup(fr, call.Args[3], "subjects is not a map[string]string literal")
+		}
+		ev.subjects = mm.kvs
+		comp, err := c.evalStr(fr, st, call.Args[4])
+		if err != nil {
+			return nil, err
+		}
+		if comp.kind != "const" {
+			return nil, c.unsup(fr, call.Args[4], "component is not a constant")
+		}
+		ev.component = comp.s
+		return hsVEvt{ev}, nil
 	}
 	return nil, c.unsup(fr, call, "call not understood")
 }
 
-func (c *hsCtx) inline(fr *hsFrame, st *hsState, call *ast.CallExpr, fd *ast.FuncDecl) (hsValue, error) {
-	if fr.depth >= 3 {
+// inline evaluates a package helper with its parameters bound to the argument values and returns
+// the values of its return statement (none for a procedure).
+func (c *hsCtx) inline(fr *hsFrame, st *hsState, call *ast.CallExpr, fd *ast.FuncDecl) ([]hsValue, error) {
+	if fr.depth >= 4 {
 		return nil, c.unsup(fr, call, "helper nesting too deep")
 	}
-	if fd.Type.Results == nil || len(fd.Type.Results.List) != 1 || len(fd.Type.Results.List[0].Names) > 1 ||
-		hsTypeString(fd.Type.Results.List[0].Type) != "*auditevent.AuditEvent" || len(fd.Type.Results.List[0].Names) != 0 {
-		return nil, c.unsup(fr, call, "helper does not return exactly one unnamed *auditevent.AuditEvent")
+	sig := hsResultSig(fd)
+	switch sig {
+	case "", "string", "*auditevent.AuditEvent", "*json.RawMessage,error":
+	default:
+		return nil, c.unsup(fr, call, "helper with result signature ("+sig+")")
 	}
 	var params []string
 	for _, f := range fd.Type.Params.List {
@@ -700,28 +960,220 @@ func (c *hsCtx) inline(fr *hsFrame, st *hsState, call *ast.CallExpr, fd *ast.Fun
 	if len(params) != len(call.Args) {
 		return nil, c.unsup(fr, call, "helper arity")
 	}
-	nf := &hsFrame{env: map[string]hsValue{}, file: c.fileOf[fd.Name.Name], helper: true, depth: fr.depth + 1}
+	nf := &hsFrame{env: map[string]hsValue{}, file: c.fileOf[fd.Name.Name], helper: true, sig: sig, depth: fr.depth + 1}
 	for i, a := range call.Args {
 		v, err := c.eval(fr, st, a)
 		if err != nil {
 			return nil, err
 		}
+		switch v.(type) {
+		case hsVStr, hsVEvt, hsVCfg, hsVLogEntry:
+		default:
+			return nil, c.unsup(fr, a, "helper argument of a kind that is not tracked")
+		}
 		nf.env[params[i]] = v
 	}
-	ret, err := c.block(nf, st, fd.Body.List)
+	vals, err := c.helperBlock(nf, st, fd.Body.List)
 	if err != nil {
 		return nil, hsUnsupported("in helper " + fd.Name.Name + ": " + err.Error())
 	}
-	if ret == nil {
-		return nil, c.unsup(fr, call, "helper "+fd.Name.Name+" ends without a return")
+	want := 0
+	if sig != "" {
+		want = len(strings.Split(sig, ","))
 	}
-	return ret, nil
+	if len(vals) != want {
+		return nil, c.unsup(fr, call, "helper "+fd.Name.Name+" does not end with a return of the declared arity")
+	}
+	ok := true
+	switch sig {
+	case "string":
+		_, ok = vals[0].(hsVStr)
+	case "*auditevent.AuditEvent":
+		ev, isEv := vals[0].(hsVEvt)
+		ok = isEv && ev.e.targetSet
+	case "*json.RawMessage,error":
+		_, ok1 := vals[0].(hsVJSON)
+		e, ok2 := vals[1].(hsVErr)
+		ok = ok1 && ok2 && e.of == "marshal"
+	}
+	if !ok {
+		return nil, c.unsup(fr, call, "helper "+fd.Name.Name+" returns something that is not understood")
+	}
+	return vals, nil
+}
+
+// helperBlock: straight-line body of a helper.  The one conditional form understood is
+//
+//	if len(line) <= n { return "fallback" } ; ... ; return line[n:]
+//
+// in a string helper, which yields the "line from n, or fallback" string.
+func (c *hsCtx) helperBlock(fr *hsFrame, st *hsState, stmts []ast.Stmt) ([]hsValue, error) {
+	for i, s := range stmts {
+		if ifs, ok := s.(*ast.IfStmt); ok && fr.sig == "string" && ifs.Init == nil && ifs.Else == nil && len(ifs.Body.List) == 1 && i < len(stmts)-1 {
+			if r, ok := ifs.Body.List[0].(*ast.ReturnStmt); ok && len(r.Results) == 1 {
+				be, ok := ifs.Cond.(*ast.BinaryExpr)
+				if !ok || be.Op != token.LEQ {
+					return nil, c.unsup(fr, s, "early return under a condition that is not `len(line) <= n`")
+				}
+				l, err := c.evalInt(fr, st, be.X)
+				if err != nil {
+					return nil, err
+				}
+				n, err := c.evalInt(fr, st, be.Y)
+				if err != nil {
+					return nil, err
+				}
+				if l.line != 1 || l.match0 != 0 || l.k != 0 || !n.pure() {
+					return nil, c.unsup(fr, s, "early return under a condition that is not `len(line) <= n`")
+				}
+				a, err := c.evalStr(fr, st, r.Results[0])
+				if err != nil {
+					return nil, err
+				}
+				rest, err := c.helperBlock(fr, st, stmts[i+1:])
+				if err != nil {
+					return nil, err
+				}
+				if len(rest) != 1 {
+					return nil, c.unsup(fr, s, "conditional return not followed by a single-value return")
+				}
+				b, ok := rest[0].(hsVStr)
+				if !ok || a.kind != "const" || b.src.kind != "lineslice" || !b.src.n.pure() || b.src.n.k != n.k {
+					return nil, c.unsup(fr, s, "conditional return that is not `fallback, else line[n:]` with the same n")
+				}
+				return []hsValue{hsVStr{hsSrc{kind: "linefrom", n: n, s: a.s}}}, nil
+			}
+		}
+		if err := c.stmt(fr, st, s, i == len(stmts)-1); err != nil {
+			return nil, err
+		}
+		if fr.returned {
+			return fr.ret, nil
+		}
+	}
+	return nil, nil
 }
 
 // ---------------------------------------------------------------------------------------------
 // statements
 
-// onlyLogsThenReturnNil: the body of a guard: logger calls, then "return nil"
+var hsLogMethods = map[string]bool{"Infoln": true, "Infof": true, "Info": true, "Errorf": true, "Errorln": true, "Error": true,
+	"Debugf": true, "Debugln": true, "Debug": true, "Warnf": true, "Warnln": true, "Warn": true}
+
+func hsPureArgs(args []ast.Expr) bool {
+	pure := true
+	for _, a := range args {
+		ast.Inspect(a, func(n ast.Node) bool {
+			switch n.(type) {
+			case *ast.CallExpr, *ast.FuncLit, *ast.UnaryExpr:
+				pure = false
+			}
+			return pure
+		})
+	}
+	return pure
+}
+
+// isLoggerExpr: the package-level logger, or a local that only ever holds a logger
+func (c *hsCtx) isLoggerExpr(fr *hsFrame, e ast.Expr) bool {
+	id, ok := e.(*ast.Ident)
+	if !ok {
+		return false
+	}
+	if v, local := fr.env[id.Name]; local {
+		_, isLogger := v.(hsVLogger)
+		return isLogger
+	}
+	return id.Name == "logger" && c.vars["logger"]
+}
+
+// <logger>.<Method>(args...) with call-free arguments
+func (c *hsCtx) isLogCall(fr *hsFrame, s ast.Stmt) bool {
+	es, ok := s.(*ast.ExprStmt)
+	if !ok {
+		return false
+	}
+	call, ok := es.X.(*ast.CallExpr)
+	if !ok {
+		return false
+	}
+	sel, ok := call.Fun.(*ast.SelectorExpr)
+	return ok && c.isLoggerExpr(fr, sel.X) && hsLogMethods[sel.Sel.Name] && hsPureArgs(call.Args)
+}
+
+// isLogOnly: a statement whose only effect is on the log: log calls; dbg = logger.With(...);
+// if logger.Level().Enabled(zap.X) { log-only } ; if dbg != nil { log-only } ; defer func() { log-only }()
+func (c *hsCtx) isLogOnly(fr *hsFrame, s ast.Stmt) bool {
+	if c.isLogCall(fr, s) {
+		return true
+	}
+	all := func(l []ast.Stmt) bool {
+		for _, b := range l {
+			if !c.isLogOnly(fr, b) {
+				return false
+			}
+		}
+		return len(l) > 0
+	}
+	switch v := s.(type) {
+	case *ast.AssignStmt:
+		if v.Tok != token.ASSIGN || len(v.Lhs) != 1 || len(v.Rhs) != 1 {
+			return false
+		}
+		id, ok := v.Lhs[0].(*ast.Ident)
+		if !ok {
+			return false
+		}
+		if _, isLogger := fr.env[id.Name].(hsVLogger); !isLogger {
+			return false
+		}
+		call, ok := v.Rhs[0].(*ast.CallExpr)
+		if !ok {
+			return false
+		}
+		sel, ok := call.Fun.(*ast.SelectorExpr)
+		return ok && c.isLoggerExpr(fr, sel.X) && sel.Sel.Name == "With" && hsPureArgs(call.Args)
+	case *ast.IfStmt:
+		if v.Init != nil || v.Else != nil || !all(v.Body.List) {
+			return false
+		}
+		// dbg != nil
+		if be, ok := v.Cond.(*ast.BinaryExpr); ok {
+			id, isId := be.X.(*ast.Ident)
+			if !isId || be.Op != token.NEQ || !hsIsIdent(be.Y, "nil") {
+				return false
+			}
+			_, isLogger := fr.env[id.Name].(hsVLogger)
+			return isLogger
+		}
+		// logger.Level().Enabled(zap.<Level>)
+		call, ok := v.Cond.(*ast.CallExpr)
+		if !ok || len(call.Args) != 1 {
+			return false
+		}
+		if p, ok := hsSelPath(call.Args[0]); !ok || len(p) != 2 {
+			return false
+		} else if path, ok := c.importPath(fr, p[0]); !ok || path != "go.uber.org/zap" {
+			return false
+		}
+		sel, ok := call.Fun.(*ast.SelectorExpr)
+		if !ok || sel.Sel.Name != "Enabled" {
+			return false
+		}
+		inner, ok := sel.X.(*ast.CallExpr)
+		if !ok || len(inner.Args) != 0 {
+			return false
+		}
+		isel, ok := inner.Fun.(*ast.SelectorExpr)
+		return ok && isel.Sel.Name == "Level" && c.isLoggerExpr(fr, isel.X)
+	case *ast.DeferStmt:
+		fl, ok := v.Call.Fun.(*ast.FuncLit)
+		return ok && len(v.Call.Args) == 0 && fl.Type.Params.NumFields() == 0 && fl.Type.Results == nil && all(fl.Body.List)
+	}
+	return false
+}
+
+// onlyLogsThenReturnNil: the body of a guard: log calls, then "return nil"
 func (c *hsCtx) onlyLogsThenReturnNil(fr *hsFrame, body *ast.BlockStmt) error {
 	if fr.helper {
 		return c.unsup(fr, body, "early return inside a helper")
@@ -742,41 +1194,6 @@ func (c *hsCtx) onlyLogsThenReturnNil(fr *hsFrame, body *ast.BlockStmt) error {
 	return nil
 }
 
-// logger.<Method>(args...) with call-free arguments
-func (c *hsCtx) isLogCall(fr *hsFrame, s ast.Stmt) bool {
-	es, ok := s.(*ast.ExprStmt)
-	if !ok {
-		return false
-	}
-	call, ok := es.X.(*ast.CallExpr)
-	if !ok {
-		return false
-	}
-	sel, ok := call.Fun.(*ast.SelectorExpr)
-	if !ok || !hsIsIdent(sel.X, "logger") || !c.vars["logger"] {
-		return false
-	}
-	if _, shadow := fr.env["logger"]; shadow {
-		return false
-	}
-	switch sel.Sel.Name {
-	case "Infoln", "Infof", "Info", "Errorf", "Errorln", "Error", "Debugf", "Debugln", "Debug", "Warnf", "Warnln", "Warn":
-	default:
-		return false
-	}
-	pure := true
-	for _, a := range call.Args {
-		ast.Inspect(a, func(n ast.Node) bool {
-			switch n.(type) {
-			case *ast.CallExpr, *ast.FuncLit, *ast.UnaryExpr:
-				pure = false
-			}
-			return pure
-		})
-	}
-	return pure
-}
-
 func (c *hsCtx) effectsAllowed(fr *hsFrame, st *hsState, n ast.Node) error {
 	if fr.helper {
 		return c.unsup(fr, n, "effect inside a helper")
@@ -787,77 +1204,66 @@ func (c *hsCtx) effectsAllowed(fr *hsFrame, st *hsState, n ast.Node) error {
 	return nil
 }
 
-// block evaluates statements in order. It returns the value of a helper's "return <expr>".
-func (c *hsCtx) block(fr *hsFrame, st *hsState, stmts []ast.Stmt) (hsValue, error) {
-	for i, s := range stmts {
-		if st.done && !fr.helper {
-			return nil, c.unsup(fr, s, "statement after the final return")
-		}
-		if st.written != nil && !fr.helper {
-			// after the write only: "return nil", or the select that hands the login over
-			switch s.(type) {
-			case *ast.ReturnStmt, *ast.SelectStmt:
-			default:
-				return nil, c.unsup(fr, s, "statement between the write and the return")
-			}
-		}
-		switch v := s.(type) {
-		case *ast.DeclStmt:
-			if err := c.declStmt(fr, v); err != nil {
-				return nil, err
-			}
-		case *ast.AssignStmt:
-			if err := c.assignStmt(fr, st, v); err != nil {
-				return nil, err
-			}
-		case *ast.IfStmt:
-			if err := c.ifStmt(fr, st, v); err != nil {
-				return nil, err
-			}
-		case *ast.ExprStmt:
-			if c.isLogCall(fr, v) {
-				continue
-			}
-			if err := c.metricStmt(fr, st, v); err != nil {
-				return nil, err
-			}
-		case *ast.ReturnStmt:
-			if i != len(stmts)-1 {
-				return nil, c.unsup(fr, s, "return that is not the last statement")
-			}
-			if fr.helper {
-				if len(v.Results) != 1 {
-					return nil, c.unsup(fr, s, "helper return arity")
-				}
-				r, err := c.eval(fr, st, v.Results[0])
-				if err != nil {
-					return nil, err
-				}
-				ev, ok := r.(hsVEvt)
-				if !ok || !ev.e.targetSet {
-					return nil, c.unsup(fr, s, "helper does not return a complete event")
-				}
-				return ev, nil
-			}
-			if len(v.Results) != 1 || !hsIsIdent(v.Results[0], "nil") {
-				return nil, c.unsup(fr, s, "final return is not return nil")
-			}
-			if st.written == nil {
-				return nil, c.unsup(fr, s, "handler returns without writing an event")
-			}
-			st.done = true
-		case *ast.SelectStmt:
-			if err := c.selectStmt(fr, st, v); err != nil {
-				return nil, err
-			}
-		default:
-			return nil, c.unsup(fr, s, "statement kind not understood")
-		}
-	}
-	return nil, nil
+// earlyReturnsDone: every conditional return the path has started is decided
+func (st *hsState) earlyReturnsDone() bool {
+	return (st.re == "" || st.matchGuard) && (!st.atoi || st.atoiGuard) && (st.re2 == "" || st.match2 != "")
 }
 
-// var v string
+// stmt evaluates one non-forking statement.
+func (c *hsCtx) stmt(fr *hsFrame, st *hsState, s ast.Stmt, last bool) error {
+	if st.done && !fr.helper {
+		return c.unsup(fr, s, "statement after the final return")
+	}
+	if c.isLogOnly(fr, s) {
+		return nil
+	}
+	if st.written != nil && !fr.helper {
+		// after the write only: "return nil", or the select that hands the login over
+		switch s.(type) {
+		case *ast.ReturnStmt, *ast.SelectStmt:
+		default:
+			return c.unsup(fr, s, "statement between the write and the return")
+		}
+	}
+	switch v := s.(type) {
+	case *ast.DeclStmt:
+		return c.declStmt(fr, v)
+	case *ast.AssignStmt:
+		return c.assignStmt(fr, st, v)
+	case *ast.IfStmt:
+		return c.ifStmt(fr, st, v)
+	case *ast.ExprStmt:
+		return c.exprStmt(fr, st, v)
+	case *ast.ReturnStmt:
+		if !last {
+			return c.unsup(fr, s, "return that is not the last statement")
+		}
+		if fr.helper {
+			for _, r := range v.Results {
+				val, err := c.eval(fr, st, r)
+				if err != nil {
+					return err
+				}
+				fr.ret = append(fr.ret, val)
+			}
+			fr.returned = true
+			return nil
+		}
+		if len(v.Results) != 1 || !hsIsIdent(v.Results[0], "nil") {
+			return c.unsup(fr, s, "final return is not return nil")
+		}
+		if st.written == nil {
+			return c.unsup(fr, s, "handler returns without writing an event")
+		}
+		st.done = true
+		return nil
+	case *ast.SelectStmt:
+		return c.selectStmt(fr, st, v)
+	}
+	return c.unsup(fr, s, "statement kind not understood")
+}
+
+// var v string ; var dbg *zap.SugaredLogger
 func (c *hsCtx) declStmt(fr *hsFrame, d *ast.DeclStmt) error {
 	gd, ok := d.Decl.(*ast.GenDecl)
 	if !ok || gd.Tok != token.VAR {
@@ -865,20 +1271,32 @@ func (c *hsCtx) declStmt(fr *hsFrame, d *ast.DeclStmt) error {
 	}
 	for _, sp := range gd.Specs {
 		vs := sp.(*ast.ValueSpec)
-		if len(vs.Values) != 0 || vs.Type == nil || hsTypeString(vs.Type) != "string" {
-			return c.unsup(fr, d, "var declaration other than `var v string`")
+		if len(vs.Values) != 0 || vs.Type == nil {
+			return c.unsup(fr, d, "var declaration with a value or without a type")
+		}
+		var zero hsValue
+		switch {
+		case hsTypeString(vs.Type) == "string":
+			zero = hsVStr{hsSrc{kind: "const", s: ""}}
+		case hsTypeString(vs.Type) == "*zap.SugaredLogger":
+			if p, ok := c.importPath(fr, "zap"); !ok || p != "go.uber.org/zap" {
+				return c.unsup(fr, d, "zap is not go.uber.org/zap")
+			}
+			zero = hsVLogger{}
+		default:
+			return c.unsup(fr, d, "var declaration of an unsupported type")
 		}
 		for _, n := range vs.Names {
 			if _, dup := fr.env[n.Name]; dup {
 				return c.unsup(fr, d, "redeclaration")
 			}
-			fr.env[n.Name] = hsVStr{hsSrc{kind: "const", s: ""}} // zero value
+			fr.env[n.Name] = zero
 		}
 	}
 	return nil
 }
 
-func (c *hsCtx) evtOf(fr *hsFrame, st *hsState, e ast.Expr) (*hsEvent, bool) {
+func (c *hsCtx) evtOf(fr *hsFrame, e ast.Expr) (*hsEvent, bool) {
 	id, ok := e.(*ast.Ident)
 	if !ok {
 		return nil, false
@@ -890,11 +1308,16 @@ func (c *hsCtx) evtOf(fr *hsFrame, st *hsState, e ast.Expr) (*hsEvent, bool) {
 	return ev.e, true
 }
 
-// isMetaExtra: <evt>.Metadata.Extra
-func (c *hsCtx) isMetaExtra(fr *hsFrame, st *hsState, e ast.Expr) (*hsEvent, bool) {
+// evtField: <evt>.<a>[.<b>]
+func (c *hsCtx) evtField(fr *hsFrame, e ast.Expr, path ...string) (*hsEvent, bool) {
 	p, ok := hsSelPath(e)
-	if !ok || len(p) != 3 || p[1] != "Metadata" || p[2] != "Extra" {
+	if !ok || len(p) != len(path)+1 {
 		return nil, false
+	}
+	for i := range path {
+		if p[i+1] != path[i] {
+			return nil, false
+		}
 	}
 	ev, ok := fr.env[p[0]].(hsVEvt)
 	if !ok {
@@ -903,45 +1326,78 @@ func (c *hsCtx) isMetaExtra(fr *hsFrame, st *hsState, e ast.Expr) (*hsEvent, boo
 	return ev.e, true
 }
 
+func (c *hsCtx) freshNames(fr *hsFrame, a *ast.AssignStmt) ([]string, error) {
+	var names []string
+	for _, l := range a.Lhs {
+		id, ok := l.(*ast.Ident)
+		if !ok || id.Name == "_" || a.Tok != token.DEFINE {
+			return nil, c.unsup(fr, a, "multi-value assignment that does not define fresh names")
+		}
+		if _, dup := fr.env[id.Name]; dup {
+			return nil, c.unsup(fr, a, "multi-value assignment that does not define fresh names")
+		}
+		names = append(names, id.Name)
+	}
+	return names, nil
+}
+
 func (c *hsCtx) assignStmt(fr *hsFrame, st *hsState, a *ast.AssignStmt) error {
 	if a.Tok != token.DEFINE && a.Tok != token.ASSIGN {
 		return c.unsup(fr, a, "compound assignment")
 	}
-	// pid, err := strconv.Atoi(config.pid)
 	if len(a.Lhs) == 2 && len(a.Rhs) == 1 {
 		call, ok := a.Rhs[0].(*ast.CallExpr)
-		l0, ok0 := a.Lhs[0].(*ast.Ident)
-		l1, ok1 := a.Lhs[1].(*ast.Ident)
-		if ok && ok0 && ok1 && a.Tok == token.DEFINE && len(call.Args) == 1 {
-			if sel, ok := call.Fun.(*ast.SelectorExpr); ok && sel.Sel.Name == "Atoi" {
-				if q, ok := sel.X.(*ast.Ident); ok {
-					if _, local := fr.env[q.Name]; !local {
-						if path, ok := c.importPath(fr, q.Name); ok && path == "strconv" {
-							arg, err := c.evalStr(fr, st, call.Args[0])
-							if err != nil {
-								return err
-							}
-							if arg.kind != "pid" {
-								return c.unsup(fr, a, "Atoi of something other than config.pid")
-							}
-							if err := c.effectsAllowed(fr, st, a); err != nil {
-								return err
-							}
-							if st.atoi {
-								return c.unsup(fr, a, "second Atoi")
-							}
-							_, d0 := fr.env[l0.Name]
-							_, d1 := fr.env[l1.Name]
-							if d0 || d1 || l0.Name == "_" || l1.Name == "_" {
-								return c.unsup(fr, a, "Atoi results not bound to fresh names")
-							}
-							st.atoi = true
-							fr.env[l0.Name] = hsVPidInt{}
-							fr.env[l1.Name] = hsVErr{"atoi"}
-							return nil
-						}
-					}
+		if !ok {
+			return c.unsup(fr, a, "two-value assignment not understood")
+		}
+		names, err := c.freshNames(fr, a)
+		if err != nil {
+			return err
+		}
+		switch {
+		case c.qualified(fr, call.Fun, "strconv", "Atoi") && len(call.Args) == 1:
+			// pid, err := strconv.Atoi(config.pid)
+			arg, err := c.evalStr(fr, st, call.Args[0])
+			if err != nil {
+				return err
+			}
+			if arg.kind != "pid" {
+				return c.unsup(fr, a, "Atoi of something other than config.pid")
+			}
+			if err := c.effectsAllowed(fr, st, a); err != nil {
+				return err
+			}
+			if st.atoi {
+				return c.unsup(fr, a, "second Atoi")
+			}
+			st.atoi = true
+			fr.env[names[0]] = hsVPidInt{}
+			fr.env[names[1]] = hsVErr{"atoi"}
+			return nil
+		case c.qualified(fr, call.Fun, "encoding/json", "Marshal") && len(call.Args) == 1:
+			// raw, err := json.Marshal(<map[string]string>): an object whose keys are sorted; cannot fail
+			m, err := c.eval(fr, st, call.Args[0])
+			if err != nil {
+				return err
+			}
+			mm, ok := m.(hsVMap)
+			if !ok || mm.ty != "map[string]string" {
+				return c.unsup(fr, a, "json.Marshal of something that is not a map[string]string with constant keys")
+			}
+			kvs := append([]hsKV{}, mm.kvs...)
+			sort.SliceStable(kvs, func(i, j int) bool { return kvs[i].k < kvs[j].k })
+			fr.env[names[0]] = hsVJSON{kvs}
+			fr.env[names[1]] = hsVErr{"marshal"}
+			return nil
+		}
+		if id, ok := call.Fun.(*ast.Ident); ok {
+			if _, shadow := fr.env[id.Name]; !shadow && c.funcs[id.Name] != nil && hsResultSig(c.funcs[id.Name]) == "*json.RawMessage,error" {
+				vals, err := c.inline(fr, st, call, c.funcs[id.Name])
+				if err != nil {
+					return err
 				}
+				fr.env[names[0]], fr.env[names[1]] = vals[0], vals[1]
+				return nil
 			}
 		}
 		return c.unsup(fr, a, "two-value assignment not understood")
@@ -968,12 +1424,17 @@ func (c *hsCtx) assignStmt(fr *hsFrame, st *hsState, a *ast.AssignStmt) error {
 		if a.Tok == token.ASSIGN {
 			_, oldStr := old.(hsVStr)
 			_, newStr := v.(hsVStr)
-			if !oldStr || !newStr {
-				return c.unsup(fr, a, "re-assignment of a non-string local")
+			oldEv, oldIsEv := old.(hsVEvt)
+			newEv, newIsEv := v.(hsVEvt)
+			switch {
+			case oldStr && newStr:
+			case oldIsEv && newIsEv && oldEv.e == newEv.e: // evt = evt.WithData(ed)
+			default:
+				return c.unsup(fr, a, "re-assignment that is not string-to-string or evt = evt.With...()")
 			}
 		}
 		switch v.(type) {
-		case hsVStr, hsVMatches, hsVIdx, hsVEvt:
+		case hsVStr, hsVMatches, hsVIdx, hsVEvt, hsVInt, hsVMap, hsVJSON:
 		default:
 			return c.unsup(fr, a, "local bound to a value kind that is not tracked")
 		}
@@ -981,7 +1442,7 @@ func (c *hsCtx) assignStmt(fr *hsFrame, st *hsState, a *ast.AssignStmt) error {
 		return nil
 	case *ast.SelectorExpr:
 		// evt.LoggedAt = config.when
-		if ev, ok := c.evtOf(fr, st, l.X); ok && l.Sel.Name == "LoggedAt" && a.Tok == token.ASSIGN {
+		if ev, ok := c.evtOf(fr, l.X); ok && l.Sel.Name == "LoggedAt" && a.Tok == token.ASSIGN {
 			v, err := c.eval(fr, st, a.Rhs[0])
 			if err != nil {
 				return err
@@ -996,36 +1457,73 @@ func (c *hsCtx) assignStmt(fr *hsFrame, st *hsState, a *ast.AssignStmt) error {
 		}
 		return c.unsup(fr, a, "field assignment not understood")
 	case *ast.IndexExpr:
-		// evt.Metadata.Extra["k"] = v
-		if ev, ok := c.isMetaExtra(fr, st, l.X); ok && a.Tok == token.ASSIGN {
-			k, err := c.evalStr(fr, st, l.Index)
-			if err != nil {
-				return err
-			}
-			if k.kind != "const" {
-				return c.unsup(fr, a, "metadata key is not a constant")
-			}
-			v, err := c.evalStr(fr, st, a.Rhs[0])
-			if err != nil {
-				return err
-			}
-			for _, kv := range ev.metaExtra {
-				if kv.k == k.s {
-					return c.unsup(fr, a, "metadata key assigned twice")
-				}
-			}
-			if st.written == ev {
-				return c.unsup(fr, a, "event changed after it was written")
-			}
-			ev.metaExtra = append(ev.metaExtra, hsKV{k.s, v})
-			return nil
+		if a.Tok != token.ASSIGN {
+			return c.unsup(fr, a, "indexed definition")
 		}
-		return c.unsup(fr, a, "indexed assignment not understood")
+		// evt.Metadata.Extra["k"] = v   /   evt.Subjects["k"] = v
+		evM, isMeta := c.evtField(fr, l.X, "Metadata", "Extra")
+		evS, isSubj := c.evtField(fr, l.X, "Subjects")
+		if !isMeta && !isSubj {
+			return c.unsup(fr, a, "indexed assignment not understood")
+		}
+		k, err := c.evalStr(fr, st, l.Index)
+		if err != nil {
+			return err
+		}
+		if k.kind != "const" {
+			return c.unsup(fr, a, "map key is not a constant")
+		}
+		v, err := c.evalField(fr, st, a.Rhs[0])
+		if err != nil {
+			return err
+		}
+		ev, list := evM, &[]hsKV{}
+		if isMeta {
+			list = &evM.metaExtra
+		} else {
+			ev, list = evS, &evS.subjects
+		}
+		for _, kv := range *list {
+			if kv.k == k.s {
+				return c.unsup(fr, a, "map key assigned twice")
+			}
+		}
+		if st.written == ev {
+			return c.unsup(fr, a, "event changed after it was written")
+		}
+		*list = append(*list, hsKV{k.s, v})
+		return nil
 	}
 	return c.unsup(fr, a, "assignment target not understood")
 }
 
 func (c *hsCtx) ifStmt(fr *hsFrame, st *hsState, s *ast.IfStmt) error {
+	// if ederr != nil { log } else { evt = evt.WithData(ed) }: json.Marshal of a map[string]string
+	// cannot fail, so only the else branch is evaluated (the error branch may only log)
+	if be, ok := s.Cond.(*ast.BinaryExpr); ok && s.Init == nil && s.Else != nil {
+		if id, ok := be.X.(*ast.Ident); ok && be.Op == token.NEQ && hsIsIdent(be.Y, "nil") {
+			if e, ok := fr.env[id.Name].(hsVErr); ok && e.of == "marshal" {
+				for _, b := range s.Body.List {
+					if !c.isLogOnly(fr, b) {
+						return c.unsup(fr, b, "marshal error branch does something other than logging")
+					}
+				}
+				eb, ok := s.Else.(*ast.BlockStmt)
+				if !ok {
+					return c.unsup(fr, s, "else-if after a marshal error check")
+				}
+				for _, b := range eb.List {
+					if _, isRet := b.(*ast.ReturnStmt); isRet {
+						return c.unsup(fr, b, "return inside the marshal success branch")
+					}
+					if err := c.stmt(fr, st, b, false); err != nil {
+						return err
+					}
+				}
+				return nil
+			}
+		}
+	}
 	if s.Else != nil {
 		return c.unsup(fr, s, "if with else")
 	}
@@ -1059,27 +1557,21 @@ func (c *hsCtx) ifStmt(fr *hsFrame, st *hsState, s *ast.IfStmt) error {
 			return c.unsup(fr, s, "write error branch is not a single return")
 		}
 		rc, ok := r.Results[0].(*ast.CallExpr)
-		if !ok {
-			return c.unsup(fr, s, "write error branch does not return fmt.Errorf(...)")
-		}
-		if rp, ok := hsSelPath(rc.Fun); !ok || len(rp) != 2 || rp[0] != "fmt" || rp[1] != "Errorf" {
+		if !ok || !c.qualified(fr, rc.Fun, "fmt", "Errorf") {
 			return c.unsup(fr, s, "write error branch does not return fmt.Errorf(...)")
 		}
 		if err := c.effectsAllowed(fr, st, s); err != nil {
 			return err
 		}
-		ev, ok := c.evtOf(fr, st, call.Args[0])
+		ev, ok := c.evtOf(fr, call.Args[0])
 		if !ok {
 			return c.unsup(fr, s, "Write of something that is not the event")
 		}
 		if !ev.targetSet {
 			return c.unsup(fr, s, "event written without a target")
 		}
-		if st.re == "" || !st.matchGuard {
-			return c.unsup(fr, s, "write that is not behind a regex match")
-		}
-		if st.atoi && !st.atoiGuard {
-			return c.unsup(fr, s, "Atoi error never checked")
+		if !st.earlyReturnsDone() {
+			return c.unsup(fr, s, "write before a pending nil/error check")
 		}
 		st.written = ev
 		return nil
@@ -1088,20 +1580,17 @@ func (c *hsCtx) ifStmt(fr *hsFrame, st *hsState, s *ast.IfStmt) error {
 	if !ok {
 		return c.unsup(fr, s, "if condition not understood")
 	}
-	// if evt.Metadata.Extra == nil { evt.Metadata.Extra = make(map[string]any, n) }   (no effect on the sketch)
-	if ev, ok := c.isMetaExtra(fr, st, be.X); ok && be.Op == token.EQL && hsIsIdent(be.Y, "nil") {
+	// if evt.Metadata.Extra == nil { evt.Metadata.Extra = make(map[string]any, n) }   (no effect on the event description)
+	if ev, ok := c.evtField(fr, be.X, "Metadata", "Extra"); ok && be.Op == token.EQL && hsIsIdent(be.Y, "nil") {
 		if len(s.Body.List) == 1 {
 			if as, ok := s.Body.List[0].(*ast.AssignStmt); ok && as.Tok == token.ASSIGN && len(as.Lhs) == 1 && len(as.Rhs) == 1 {
-				ev2, ok2 := c.isMetaExtra(fr, st, as.Lhs[0])
+				ev2, ok2 := c.evtField(fr, as.Lhs[0], "Metadata", "Extra")
 				if mk, ok3 := as.Rhs[0].(*ast.CallExpr); ok2 && ok3 && ev2 == ev && hsIsIdent(mk.Fun, "make") && len(mk.Args) >= 1 {
-					if _, shadow := fr.env["make"]; !shadow && c.funcs["make"] == nil {
-						switch hsTypeString(mk.Args[0]) {
-						case "map[string]any", "map[string]interface{}":
-							if len(ev.metaExtra) != 0 {
-								return c.unsup(fr, s, "metadata map replaced after a key was set")
-							}
-							return nil
+					if _, shadow := fr.env["make"]; !shadow && c.funcs["make"] == nil && hsTypeString(mk.Args[0]) == "map[string]any" {
+						if len(ev.metaExtra) != 0 {
+							return c.unsup(fr, s, "metadata map replaced after a key was set")
 						}
+						return nil
 					}
 				}
 			}
@@ -1114,9 +1603,9 @@ func (c *hsCtx) ifStmt(fr *hsFrame, st *hsState, s *ast.IfStmt) error {
 	}
 	switch xv := x.(type) {
 	case hsVMatches:
-		// if matches == nil { log; return nil }
-		if be.Op != token.EQL || !hsIsIdent(be.Y, "nil") {
-			return c.unsup(fr, s, "condition on the sub-matches that is not `== nil`")
+		// if matches == nil { log; return nil }     (the second regex's check forks: see run)
+		if xv.second || be.Op != token.EQL || !hsIsIdent(be.Y, "nil") {
+			return c.unsup(fr, s, "condition on the sub-matches that is not `== nil` on the first match")
 		}
 		if err := c.onlyLogsThenReturnNil(fr, s.Body); err != nil {
 			return err
@@ -1124,8 +1613,8 @@ func (c *hsCtx) ifStmt(fr *hsFrame, st *hsState, s *ast.IfStmt) error {
 		if err := c.effectsAllowed(fr, st, s); err != nil {
 			return err
 		}
-		if len(st.metrics) != 0 {
-			return c.unsup(fr, s, "no-match return after a metric increment")
+		if len(st.metrics) != 0 || st.matchGuard {
+			return c.unsup(fr, s, "no-match return after a metric increment, or repeated")
 		}
 		st.matchGuard = true
 		return nil
@@ -1140,8 +1629,8 @@ func (c *hsCtx) ifStmt(fr *hsFrame, st *hsState, s *ast.IfStmt) error {
 		if err := c.effectsAllowed(fr, st, s); err != nil {
 			return err
 		}
-		if len(st.metrics) != 0 {
-			return c.unsup(fr, s, "bad-pid return after a metric increment")
+		if len(st.metrics) != 0 || st.atoiGuard {
+			return c.unsup(fr, s, "bad-pid return after a metric increment, or repeated")
 		}
 		st.atoiGuard = true
 		return nil
@@ -1171,11 +1660,23 @@ func (c *hsCtx) ifStmt(fr *hsFrame, st *hsState, s *ast.IfStmt) error {
 	return c.unsup(fr, s, "if condition not understood")
 }
 
-// config.metrics.IncLogins(metrics.X, metrics.Y)
-func (c *hsCtx) metricStmt(fr *hsFrame, st *hsState, es *ast.ExprStmt) error {
+// config.metrics.IncLogins(metrics.X, metrics.Y) ; <evt>.WithData(ed) ; procedure helper(args)
+func (c *hsCtx) exprStmt(fr *hsFrame, st *hsState, es *ast.ExprStmt) error {
 	call, ok := es.X.(*ast.CallExpr)
 	if !ok {
 		return c.unsup(fr, es, "expression statement not understood")
+	}
+	if id, ok := call.Fun.(*ast.Ident); ok {
+		_, shadow := fr.env[id.Name]
+		if fd := c.funcs[id.Name]; fd != nil && !shadow && hsResultSig(fd) == "" {
+			_, err := c.inline(fr, st, call, fd)
+			return err
+		}
+		return c.unsup(fr, es, "call statement not understood")
+	}
+	if sel, ok := call.Fun.(*ast.SelectorExpr); ok && sel.Sel.Name == "WithData" {
+		_, err := c.evalCall(fr, st, call)
+		return err
 	}
 	p, ok := hsSelPath(call.Fun)
 	if !ok || len(p) != 3 || p[1] != "metrics" || p[2] != "IncLogins" || len(call.Args) != 2 {
@@ -1199,8 +1700,8 @@ func (c *hsCtx) metricStmt(fr *hsFrame, st *hsState, es *ast.ExprStmt) error {
 		}
 		lab[i] = m.name
 	}
-	if st.re == "" || !st.matchGuard || (st.atoi && !st.atoiGuard) {
-		return c.unsup(fr, es, "metric increment before the handler's early returns")
+	if !st.earlyReturnsDone() {
+		return c.unsup(fr, es, "metric increment before a pending nil/error check")
 	}
 	st.metrics = append(st.metrics, lab)
 	return nil
@@ -1279,38 +1780,168 @@ func (c *hsCtx) selectStmt(fr *hsFrame, st *hsState, s *ast.SelectStmt) error {
 }
 
 // ---------------------------------------------------------------------------------------------
-// one handler
+// decision tree of one handler
 
-type hsSketch struct {
-	st  *hsState
-	evt *hsEvent
+type hsNode struct {
+	kind    string // write | find | atoi | ifwhole | find2
+	re      string // find, find2
+	skip    int    // find2
+	a, b    *hsNode
+	evt     *hsEvent // write
+	metrics [][2]string
+	forward *hsSrc
 }
 
-func (c *hsCtx) sketchOf(name string) (*hsSketch, error) {
+// forkKind recognises the input-dependent conditions that have a terminating then-branch:
+//
+//	len(config.logEntry) == len(matches[0])      -> "ifwhole"
+//	idMatches == nil  (second regex)             -> "find2"
+func (c *hsCtx) forkKind(fr *hsFrame, st *hsState, cond ast.Expr) (string, error) {
+	be, ok := cond.(*ast.BinaryExpr)
+	if !ok || be.Op != token.EQL {
+		return "", nil
+	}
+	if call, ok := be.X.(*ast.CallExpr); ok && hsIsIdent(call.Fun, "len") {
+		l, err := c.evalInt(fr, st, be.X)
+		if err != nil {
+			return "", err
+		}
+		r, err := c.evalInt(fr, st, be.Y)
+		if err != nil {
+			return "", err
+		}
+		if l == (hsInt{line: 1}) && r == (hsInt{match0: 1}) {
+			return "ifwhole", nil
+		}
+		return "", c.unsup(fr, cond, "length comparison other than len(config.logEntry) == len(matches[0])")
+	}
+	if id, ok := be.X.(*ast.Ident); ok && hsIsIdent(be.Y, "nil") {
+		if m, ok := fr.env[id.Name].(hsVMatches); ok && m.second {
+			if st.match2 != "" {
+				return "", c.unsup(fr, cond, "second nil check of the second match")
+			}
+			return "find2", nil
+		}
+	}
+	return "", nil
+}
+
+// run evaluates the statements of a handler (or of the terminating branch of a fork) to the end.
+func (c *hsCtx) run(fr *hsFrame, st *hsState, stmts []ast.Stmt) (*hsNode, error) {
+	for i, s := range stmts {
+		if ifs, ok := s.(*ast.IfStmt); ok && ifs.Init == nil && ifs.Else == nil && !st.done {
+			kind, err := c.forkKind(fr, st, ifs.Cond)
+			if err != nil {
+				return nil, err
+			}
+			if kind != "" {
+				if len(st.metrics) != 0 || st.written != nil || !st.matchGuard {
+					return nil, c.unsup(fr, s, "branch on the input after an effect or before the match is checked")
+				}
+				fr2, st2 := hsCloneWorld(fr, st)
+				if kind == "find2" {
+					st2.match2, st.match2 = "nil", "some"
+				}
+				thenT, err := c.run(fr2, st2, ifs.Body.List)
+				if err != nil {
+					return nil, err
+				}
+				restT, err := c.run(fr, st, stmts[i+1:])
+				if err != nil {
+					return nil, err
+				}
+				return &hsNode{kind: kind, re: st.re2, skip: st.skip, a: thenT, b: restT}, nil
+			}
+		}
+		mg, ag := st.matchGuard, st.atoiGuard
+		if err := c.stmt(fr, st, s, i == len(stmts)-1); err != nil {
+			return nil, err
+		}
+		if st.matchGuard != mg || st.atoiGuard != ag {
+			node := &hsNode{kind: "atoi"}
+			if st.matchGuard != mg {
+				node = &hsNode{kind: "find", re: st.re}
+			}
+			rest, err := c.run(fr, st, stmts[i+1:])
+			if err != nil {
+				return nil, err
+			}
+			node.a = rest
+			return node, nil
+		}
+	}
+	if !st.done || st.written == nil {
+		if len(stmts) > 0 {
+			return nil, c.unsup(fr, stmts[len(stmts)-1], "path ends without the write and a final return nil")
+		}
+		return nil, hsUnsupported("path ends without the write and a final return nil")
+	}
+	if !st.earlyReturnsDone() {
+		return nil, hsUnsupported("path ends with a pending nil/error check")
+	}
+	return &hsNode{kind: "write", evt: st.written, metrics: st.metrics, forward: st.forward}, nil
+}
+
+func (c *hsCtx) treeOf(name string) (*hsNode, error) {
 	fd := c.funcs[name]
 	if fd == nil {
 		return nil, hsUnsupported("function " + name + " not found")
 	}
 	ps := fd.Type.Params.List
-	if len(ps) != 1 || len(ps[0].Names) != 1 || hsTypeString(ps[0].Type) != "*SshdProcessorer" {
-		return nil, hsUnsupported("handler signature is not func(config *SshdProcessorer) error")
-	}
-	if fd.Type.Results == nil || len(fd.Type.Results.List) != 1 || hsTypeString(fd.Type.Results.List[0].Type) != "error" {
+	if len(ps) != 1 || len(ps[0].Names) != 1 || hsTypeString(ps[0].Type) != "*SshdProcessorer" || hsResultSig(fd) != "error" {
 		return nil, hsUnsupported("handler signature is not func(config *SshdProcessorer) error")
 	}
 	fr := &hsFrame{env: map[string]hsValue{ps[0].Names[0].Name: hsVCfg{}}, file: c.fileOf[name]}
-	st := &hsState{}
-	if _, err := c.block(fr, st, fd.Body.List); err != nil {
-		return nil, err
-	}
-	if !st.done || st.written == nil {
-		return nil, hsUnsupported("handler body ends without the write and a final return nil")
-	}
-	if st.atoi != (st.forward != nil) {
-		return nil, hsUnsupported("Atoi(config.pid) and the hand-off to config.logins do not come together")
-	}
-	return &hsSketch{st, st.written}, nil
+	return c.run(fr, &hsState{}, fd.Body.List)
 }
+
+// plainSketch: trees of the shape  find -> write  or  atoi/find (either order) -> write+forward
+// whose event has no data and only plain sources are also given as a flat sketch.
+func hsPlainSketch(t *hsNode) (re string, leaf *hsNode, why string) {
+	atoi := false
+	for t.kind == "find" || t.kind == "atoi" {
+		if t.kind == "find" {
+			if re != "" {
+				return "", nil, "two matches"
+			}
+			re = t.re
+		} else {
+			atoi = true
+		}
+		t = t.a
+	}
+	if t.kind != "write" {
+		return "", nil, "the handler branches on the input (" + t.kind + "); see handler_prog"
+	}
+	if re == "" {
+		return "", nil, "the handler uses no regular expression; see handler_prog"
+	}
+	if atoi != (t.forward != nil) {
+		return "", nil, "Atoi(config.pid) and the hand-off to config.logins do not come together"
+	}
+	e := t.evt
+	if e.dataSet {
+		return "", nil, "the event carries data; see handler_prog"
+	}
+	srcs := []hsSrc{e.srcValue}
+	for _, l := range [][]hsKV{e.srcExtra, e.subjects, e.target, e.metaExtra} {
+		for _, kv := range l {
+			srcs = append(srcs, kv.v)
+		}
+	}
+	if t.forward != nil {
+		srcs = append(srcs, *t.forward)
+	}
+	for _, s := range srcs {
+		if !s.plain() {
+			return "", nil, "a field source that is not a capture of the one regex, a constant or a processor field"
+		}
+	}
+	return re, t, ""
+}
+
+// ---------------------------------------------------------------------------------------------
+// output
 
 func hsKVList(kvs []hsKV) string {
 	var ps []string
@@ -1330,6 +1961,53 @@ func hsStr(s string) string {
 		return "UNSUPPORTED_non_printable_string_constant"
 	}
 	return q
+}
+
+func hsBool(b bool) string {
+	if b {
+		return "true"
+	}
+	return "false"
+}
+
+func hsMetrics(ms [][2]string) string {
+	var ps []string
+	for _, m := range ms {
+		ps = append(ps, fmt.Sprintf("(%s, %s)", hsStr(m[0]), hsStr(m[1])))
+	}
+	return "[" + strings.Join(ps, "; ") + "]"
+}
+
+func hsForward(f *hsSrc) string {
+	if f == nil {
+		return "None"
+	}
+	return "Some (" + f.coq() + ")"
+}
+
+// hsProgCoq renders a tree; leaves become separate definitions (appended to defs)
+func hsProgCoq(name string, t *hsNode, path string, defs *strings.Builder, ind string) string {
+	switch t.kind {
+	case "write":
+		ln := "leaf_" + name + path
+		e := t.evt
+		fmt.Fprintf(defs, "Definition %s : hleaf := {|\n  hl_event := {|\n", ln)
+		fmt.Fprintf(defs, "    he_action := %s;\n    he_component := %s;\n    he_ok := %s;\n    he_source_type := %s;\n", hsStr(e.action), hsStr(e.component), hsBool(e.ok), hsStr(e.srcType))
+		fmt.Fprintf(defs, "    he_source_value := %s;\n    he_source_extra := %s;\n", e.srcValue.coq(), hsKVList(e.srcExtra))
+		fmt.Fprintf(defs, "    he_subjects := %s;\n    he_target := %s;\n", hsKVList(e.subjects), hsKVList(e.target))
+		fmt.Fprintf(defs, "    he_meta_extra := %s;\n    he_data := %s |};\n", hsKVList(e.metaExtra), hsKVList(e.data))
+		fmt.Fprintf(defs, "  hl_metrics := %s;\n  hl_forward := %s\n|}.\n\n", hsMetrics(t.metrics), hsForward(t.forward))
+		return ind + "PWrite " + ln
+	case "find":
+		return ind + "PFind " + t.re + " (\n" + hsProgCoq(name, t.a, path, defs, ind+"  ") + ")"
+	case "atoi":
+		return ind + "PAtoi (\n" + hsProgCoq(name, t.a, path, defs, ind+"  ") + ")"
+	case "ifwhole":
+		return ind + "PIfWholeLine (\n" + hsProgCoq(name, t.a, path+"_whole", defs, ind+"  ") + ") (\n" + hsProgCoq(name, t.b, path, defs, ind+"  ") + ")"
+	case "find2":
+		return ind + fmt.Sprintf("PFind2 %d %s (\n", t.skip, t.re) + hsProgCoq(name, t.a, path+"_nomatch2", defs, ind+"  ") + ") (\n" + hsProgCoq(name, t.b, path+"_match2", defs, ind+"  ") + ")"
+	}
+	return ind + "UNSUPPORTED_node"
 }
 
 // handler names, in order of first appearance in ProcessEntry and userTypeLogAuditFn
@@ -1381,6 +2059,79 @@ func hsComment(s string) string {
 	s = strings.ReplaceAll(s, "(*", "( *")
 	return strings.ReplaceAll(s, "\"", "'") // Coq lexes string quotes inside comments
 }
+
+const hsHeader = `(* GENERATED by tools/go2v from processors/sshd/*.go (and internal/common, internal/metrics for constants).
+   Do not edit.
+   For every handler: what it does, obtained by symbolic evaluation of the handler body with helpers
+   inlined: which regex it re-matches the line with, where each event field comes from (capture group /
+   constant / processor field / tail of the line), the outcome, the metric increments, the data object,
+   whether and with which credential the login is handed on, and on which conditions it branches. *)
+From Coq Require Import Ascii String List.
+Import ListNotations.
+From AM Require Import Lib.Bytes Lib.Regex Gen.SshdRegexes Gen.SshdDispatch.
+Open Scope string_scope.
+
+(* where a string put into the event comes from *)
+Inductive fsrc :=
+| FCap (group_index : nat)   (* matches[i] of the handler's regex *)
+| FConst (s : string)
+| FCfgPid                    (* config.pid: the PID token of the log entry *)
+| FCfgNode                   (* config.nodeName *)
+| FCfgMachineID              (* config.machineID *)
+| FCap2 (group_index : nat)  (* idMatches[i]: sub-match of the handler's second regex *)
+| FLineFrom (n : nat) (fallback : string).
+                             (* if len(config.logEntry) <= n then fallback else config.logEntry[n:] *)
+
+(* ---- flat sketches: handlers of the shape  match; build the event; (metrics;) write; (hand on) ---- *)
+Record hsketch := {
+  hs_re : list item;                         (* the regex handed to FindStringSubmatch; no match: return nil *)
+  hs_action : string;                        (* NewAuditEvent's event type *)
+  hs_component : string;                     (* NewAuditEvent's component *)
+  hs_ok : bool;                              (* auditevent.OutcomeSucceeded? *)
+  hs_source_type : string;
+  hs_source_value : fsrc;
+  hs_source_extra : list (string * fsrc);
+  hs_subjects : list (string * fsrc);        (* in source order *)
+  hs_target : list (string * fsrc);
+  hs_meta_extra : list (string * fsrc);      (* evt.Metadata.Extra[k] = v *)
+  hs_metrics : list mlabel;                  (* IncLogins calls inside the handler: after the early returns, before the write *)
+  hs_forward : option fsrc                   (* Some cred: Atoi(config.pid) is checked before anything else happens (failure: return nil) and,
+                                                after a successful write, RemoteUserLogin{Source: the event, PID: that int, CredUserID: cred}
+                                                is offered to config.logins (select with ctx.Done) *)
+}.
+
+(* ---- decision trees: every handler ---- *)
+Record hevent := {
+  he_action : string;
+  he_component : string;
+  he_ok : bool;
+  he_source_type : string;
+  he_source_value : fsrc;
+  he_source_extra : list (string * fsrc);
+  he_subjects : list (string * fsrc);        (* NewAuditEvent's map, then evt.Subjects[k] = v assignments, in source order *)
+  he_target : list (string * fsrc);
+  he_meta_extra : list (string * fsrc);
+  he_data : list (string * fsrc)             (* WithData(json.Marshal(map[string]string{...})): keys in json.Marshal's (sorted) order.
+                                                The marshal error branch (it only logs) is dropped: marshalling such a map cannot fail. *)
+}.
+
+Record hleaf := {
+  hl_event : hevent;                         (* the event handed to config.eventW.Write *)
+  hl_metrics : list mlabel;                  (* IncLogins calls on the path, all before the write *)
+  hl_forward : option fsrc                   (* Some cred: after a successful write RemoteUserLogin{Source: the event, PID: the Atoi'd pid,
+                                                CredUserID: cred} is offered to config.logins (select with ctx.Done) *)
+}.
+
+Inductive hprog :=
+| PWrite (l : hleaf)                         (* count the metrics, write the event (error: return it), hand on if any, return nil *)
+| PFind (re : list item) (k : hprog)         (* matches := re.FindStringSubmatch(config.logEntry); nil: return nil *)
+| PAtoi (k : hprog)                          (* pid, err := strconv.Atoi(config.pid); err: return nil *)
+| PIfWholeLine (k_then k_else : hprog)       (* if len(config.logEntry) == len(matches[0]) *)
+| PFind2 (skip : nat) (re2 : list item) (k_none k_some : hprog).
+                                             (* rest := config.logEntry[len(matches[0])+skip:]  (a slice expression: panics when out of range);
+                                                idMatches := re2.FindStringSubmatch(rest); if idMatches == nil then k_none else k_some *)
+
+`
 
 func genHandlers(repo, out string) error {
 	dir := filepath.Join(repo, "processors/sshd")
@@ -1448,91 +2199,83 @@ func genHandlers(repo, out string) error {
 	}
 
 	var sb strings.Builder
-	sb.WriteString("(* GENERATED by tools/go2v from processors/sshd/*.go (and internal/common for constants). Do not edit.\n")
-	sb.WriteString("   For every handler: which regex it re-matches the line with and, per event field, where the\n")
-	sb.WriteString("   value comes from (capture group / constant / processor field), obtained by symbolic evaluation\n")
-	sb.WriteString("   of the handler body with helpers inlined. *)\n")
-	sb.WriteString("From Coq Require Import Ascii String List.\nImport ListNotations.\nFrom AM Require Import Lib.Bytes Lib.Regex Gen.SshdRegexes Gen.SshdDispatch.\nOpen Scope string_scope.\n\n")
-	sb.WriteString("(* where a string put into the event comes from *)\n")
-	sb.WriteString("Inductive fsrc :=\n| FCap (group_index : nat)   (* matches[i] of the handler's regex *)\n| FConst (s : string)\n| FCfgPid                    (* config.pid: the PID token of the log entry *)\n| FCfgNode                   (* config.nodeName *)\n| FCfgMachineID.             (* config.machineID *)\n\n")
-	sb.WriteString("Record hsketch := {\n")
-	sb.WriteString("  hs_re : list item;                         (* the regex handed to FindStringSubmatch; no match: return nil *)\n")
-	sb.WriteString("  hs_action : string;                        (* NewAuditEvent's event type *)\n")
-	sb.WriteString("  hs_component : string;                     (* NewAuditEvent's component *)\n")
-	sb.WriteString("  hs_ok : bool;                              (* auditevent.OutcomeSucceeded? *)\n")
-	sb.WriteString("  hs_source_type : string;\n")
-	sb.WriteString("  hs_source_value : fsrc;\n")
-	sb.WriteString("  hs_source_extra : list (string * fsrc);\n")
-	sb.WriteString("  hs_subjects : list (string * fsrc);        (* in source order *)\n")
-	sb.WriteString("  hs_target : list (string * fsrc);\n")
-	sb.WriteString("  hs_meta_extra : list (string * fsrc);      (* evt.Metadata.Extra[k] = v *)\n")
-	sb.WriteString("  hs_metrics : list mlabel;                  (* IncLogins calls inside the handler: after the early returns, before the write *)\n")
-	sb.WriteString("  hs_forward : option fsrc                   (* Some cred: Atoi(config.pid) is checked before anything else happens (failure: return nil) and,\n")
-	sb.WriteString("                                                after a successful write, RemoteUserLogin{Source: the event, PID: that int, CredUserID: cred}\n")
-	sb.WriteString("                                                is offered to config.logins (select with ctx.Done) *)\n")
-	sb.WriteString("}.\n\n")
+	sb.WriteString(hsHeader)
 
 	names, problems := c.handlerNames()
 	type res struct {
 		name string
-		sk   *hsSketch
+		tree *hsNode
 		err  error
+		re   string // flat sketch, if the tree has the plain shape
+		leaf *hsNode
+		why  string
 	}
 	var results []res
 	for _, h := range names {
-		sk, err := c.sketchOf(h)
-		results = append(results, res{h, sk, err})
+		r := res{name: h}
+		r.tree, r.err = c.treeOf(h)
+		if r.tree != nil {
+			r.re, r.leaf, r.why = hsPlainSketch(r.tree)
+		}
+		results = append(results, r)
 	}
+	// flat sketches
 	for _, r := range results {
-		if r.sk == nil {
+		if r.leaf == nil {
 			continue
 		}
-		e := r.sk.evt
+		e := r.leaf.evt
 		fmt.Fprintf(&sb, "Definition sketch_%s : hsketch := {|\n", r.name)
-		fmt.Fprintf(&sb, "  hs_re := %s;\n", r.sk.st.re)
+		fmt.Fprintf(&sb, "  hs_re := %s;\n", r.re)
 		fmt.Fprintf(&sb, "  hs_action := %s;\n  hs_component := %s;\n", hsStr(e.action), hsStr(e.component))
-		if e.ok {
-			sb.WriteString("  hs_ok := true;\n")
-		} else {
-			sb.WriteString("  hs_ok := false;\n")
-		}
+		fmt.Fprintf(&sb, "  hs_ok := %s;\n", hsBool(e.ok))
 		fmt.Fprintf(&sb, "  hs_source_type := %s;\n", hsStr(e.srcType))
 		fmt.Fprintf(&sb, "  hs_source_value := %s;\n", e.srcValue.coq())
 		fmt.Fprintf(&sb, "  hs_source_extra := %s;\n", hsKVList(e.srcExtra))
 		fmt.Fprintf(&sb, "  hs_subjects := %s;\n", hsKVList(e.subjects))
 		fmt.Fprintf(&sb, "  hs_target := %s;\n", hsKVList(e.target))
 		fmt.Fprintf(&sb, "  hs_meta_extra := %s;\n", hsKVList(e.metaExtra))
-		var ms []string
-		for _, m := range r.sk.st.metrics {
-			ms = append(ms, fmt.Sprintf("(%s, %s)", hsStr(m[0]), hsStr(m[1])))
-		}
-		fmt.Fprintf(&sb, "  hs_metrics := [%s];\n", strings.Join(ms, "; "))
-		if r.sk.st.forward != nil {
-			fmt.Fprintf(&sb, "  hs_forward := Some (%s)\n", r.sk.st.forward.coq())
-		} else {
-			sb.WriteString("  hs_forward := None\n")
-		}
+		fmt.Fprintf(&sb, "  hs_metrics := %s;\n", hsMetrics(r.leaf.metrics))
+		fmt.Fprintf(&sb, "  hs_forward := %s\n", hsForward(r.leaf.forward))
 		sb.WriteString("|}.\n\n")
 	}
 	sb.WriteString("Definition handler_sketch (h : handler) : option hsketch :=\n  match h with\n")
+	var sketchless []string
 	for _, r := range results {
 		switch {
-		case r.sk != nil:
+		case r.leaf != nil:
 			fmt.Fprintf(&sb, "  | h_%s => Some sketch_%s\n", r.name, r.name)
-		case hsNoSketchAllowed[r.name]:
-			fmt.Fprintf(&sb, "  (* no sketch (allowed for this handler): %s *)\n  | h_%s => None\n", hsComment(r.err.Error()), r.name)
+		case r.tree != nil && hsNoSketchAllowed[r.name]:
+			fmt.Fprintf(&sb, "  (* no flat sketch (allowed for this handler): %s *)\n  | h_%s => None\n", hsComment(r.why), r.name)
+			sketchless = append(sketchless, "h_"+r.name)
+		case r.tree != nil:
+			fmt.Fprintf(&sb, "  (* UNSUPPORTED: no flat sketch and not allowed to have none: %s *)\n  | h_%s => UNSUPPORTED_sketch_%s\n", hsComment(r.why), r.name, r.name)
 		default:
 			fmt.Fprintf(&sb, "  (* UNSUPPORTED: %s *)\n  | h_%s => UNSUPPORTED_sketch_%s\n", hsComment(r.err.Error()), r.name, r.name)
 		}
 	}
 	sb.WriteString("  end.\n\n")
-	var allowed []string
+	fmt.Fprintf(&sb, "(* the handlers without a flat sketch *)\nDefinition sketchless_handlers : list handler := [%s].\n\n", strings.Join(sketchless, "; "))
+
+	// decision trees
 	for _, r := range results {
-		if r.sk == nil && hsNoSketchAllowed[r.name] {
-			allowed = append(allowed, "h_"+r.name)
+		if r.tree == nil {
+			continue
+		}
+		var leaves strings.Builder
+		body := hsProgCoq(r.name, r.tree, "", &leaves, "  ")
+		sb.WriteString(leaves.String())
+		fmt.Fprintf(&sb, "Definition prog_%s : hprog :=\n%s.\n\n", r.name, body)
+	}
+	sb.WriteString("Definition handler_prog (h : handler) : hprog :=\n  match h with\n")
+	for _, r := range results {
+		if r.tree != nil {
+			fmt.Fprintf(&sb, "  | h_%s => prog_%s\n", r.name, r.name)
+		} else {
+			fmt.Fprintf(&sb, "  (* UNSUPPORTED: %s *)\n  | h_%s => UNSUPPORTED_prog_%s\n", hsComment(r.err.Error()), r.name, r.name)
 		}
 	}
-	fmt.Fprintf(&sb, "(* the handlers without a sketch *)\nDefinition sketchless_handlers : list handler := [%s].\n", strings.Join(allowed, "; "))
+	sb.WriteString("  end.\n")
 	for _, p := range problems {
 		fmt.Fprintf(&sb, "(* UNSUPPORTED: %s *)\n", hsComment(p))
 	}
